@@ -10,6 +10,7 @@ import (
 	"runtime"
 	"strings"
 	"sync"
+	"sync/atomic"
 	"syscall"
 	"time"
 
@@ -114,6 +115,43 @@ func RunScenariosCB(r *evid.Run, n int, perChildTimeout time.Duration, f Scenari
 	wg.Wait()
 }
 
+// RunScenarioList is the parent side of RunScenarios for an explicit list of
+// scenario numbers, run on a pool of its own of the given width (additive: a
+// program whose case list has a part made of scenarios that mostly WAIT, e.g.
+// for a watchdog, runs that part next to the rest instead of behind it; the
+// case list itself is unchanged). The child side is RunScenarios as before:
+// the program calls it first thing when IsChild(). cb may be nil.
+func RunScenarioList(r *evid.Run, ks []int, width int, perChildTimeout time.Duration, cb func(*Result)) {
+	if width < 1 {
+		width = 1
+	}
+	jobs := make(chan int)
+	var wg sync.WaitGroup
+	for i := 0; i < width; i++ {
+		wg.Add(1)
+		go func() {
+			defer wg.Done()
+			for k := range jobs {
+				runChild(r, k, perChildTimeout, cb)
+			}
+		}()
+	}
+	for _, k := range ks {
+		jobs <- k
+	}
+	close(jobs)
+	wg.Wait()
+}
+
+// RSSLimitMB, when set by a check program (never by -race builds, whose
+// shadow memory multiplies the footprint), makes a scenario child whose peak
+// resident memory exceeds it a violation. PeakChildRSSMB reports the largest
+// peak seen, for the evidence.
+var RSSLimitMB int64
+var peakChildRSSMB atomic.Int64
+
+func PeakChildRSSMB() int64 { return peakChildRSSMB.Load() }
+
 func runChild(r *evid.Run, k int, timeout time.Duration, cb func(*Result)) {
 	exe, _ := os.Executable()
 	cmd := exec.Command(exe, "-tier", r.Tier, "-seed", fmt.Sprint(r.Seed))
@@ -140,6 +178,29 @@ func runChild(r *evid.Run, k int, timeout time.Duration, cb func(*Result)) {
 			_ = cmd.Process.Kill()
 			werr = <-done
 		}
+	}
+	// Resource monitor: the peak resident memory of the child (the complete
+	// client plus simulated peers; a scenario needs 0.1-0.3 GiB) as the kernel
+	// accounted it. A program that sets RSSLimitMB treats a child above it as a
+	// violation: a light client that touches gigabytes to answer (or refuse) one
+	// call is killed by the OOM killer, or thrashes, wherever memory is limited,
+	// and then neither the call nor Stop return.
+	peakMB := int64(0)
+	if ps := cmd.ProcessState; ps != nil {
+		if ru, ok := ps.SysUsage().(*syscall.Rusage); ok {
+			peakMB = ru.Maxrss / 1024
+		}
+	}
+	for {
+		old := peakChildRSSMB.Load()
+		if peakMB <= old || peakChildRSSMB.CompareAndSwap(old, peakMB) {
+			break
+		}
+	}
+	if RSSLimitMB > 0 && peakMB > RSSLimitMB {
+		r.Violation(evid.Sig("resource", fmt.Sprintf("client-process-resident-memory-over-%dMiB", RSSLimitMB)),
+			fmt.Sprintf("the client process of scenario %d peaked at %d MiB of resident memory (scenarios of this check need 100-300 MiB)", k, peakMB),
+			map[string]any{"scenario": k, "peak_rss_mib": peakMB, "limit_mib": RSSLimitMB})
 	}
 	var res *Result
 	sc := bufio.NewScanner(&out)
